@@ -79,6 +79,40 @@ def link_valid(elem, certifier_pub65):
         return False
 
 
+def _verify_under(vk, elem):
+    try:
+        if vk is None:
+            return False
+        sig = bytes.fromhex(elem["signature"])
+        r, s = sigdecode_der(sig, N)
+        if not (0 < r < N and 0 < s <= N // 2):      # libsecp256k1 only verifies low-S signatures
+            return False
+        return bool(vk.verify(sig, bytes.fromhex(elem["message"]), hashfunc=hashlib.sha256, sigdecode=sigdecode_der))
+    except Exception:
+        return False
+
+
+def link_facts(elem, certifier_pub65):
+    """the primitive facts about one version-1 link, for the Lean model `Cert.linkValid` to combine: whether
+    the element declares a tweak, whether its signature verifies under the certifier's key, and whether it
+    verifies under that key tweaked by HMAC-SHA256(tweak, key)·G"""
+    f = {"kind": "v1", "tweaked": elem.get("tweak") is not None, "sig_ok": False, "sig_ok_tweaked": False}
+    try:
+        vk = parse_pub(certifier_pub65)
+        f["sig_ok"] = _verify_under(vk, elem)
+        if vk is not None and elem.get("tweak") is not None:
+            ser = b"\x04" + vk.to_string()
+            t = int.from_bytes(hmac.new(bytes.fromhex(elem["tweak"]), ser, hashlib.sha256).digest(), "big")
+            if t < N:
+                pt = vk.pubkey.point + G * t
+                if pt != ecdsa.ellipticcurve.INFINITY:
+                    tvk = ecdsa.VerifyingKey.from_public_point(pt, curve=SECP256k1, hashfunc=hashlib.sha256)
+                    f["sig_ok_tweaked"] = _verify_under(tvk, elem)
+    except Exception:
+        pass
+    return f
+
+
 def genuine_chain(rng, depth=None, tweaks=True):
     """root key + elements device <- attestation <- {ui, signer}; returns (root_sk, elements, keys)"""
     root = rand_key(rng)
